@@ -31,6 +31,7 @@ type LifeParams struct {
 	DrainCap    int64 // do not drain beyond this height (0 = no cap)
 	DrainAll    bool  // afterwards cancel / terminate / claim / withdraw everything
 	Params      func(p *nodetypes.Params)
+	StartAge    uint // halving age the chain starts in (cumulative reward preset in genesis, as after an export)
 }
 
 func DefaultLife() LifeParams {
@@ -82,7 +83,12 @@ func SetupLife(w *world.World, p LifeParams) *Life {
 	if p.Params != nil {
 		p.Params(&np)
 	}
-	gen := w.StandardGenesis(np, funded, 10_000_000_000, nil)
+	var mut func(*chain.GenesisSpec)
+	if p.StartAge > 0 {
+		total, _ := sdk.NewIntFromString("400000000000000")
+		mut = func(s *chain.GenesisSpec) { s.PoolTotalReward = total.Sub(total.Quo(sdk.NewInt(1 << p.StartAge))) }
+	}
+	gen := w.StandardGenesis(np, funded, 10_000_000_000, mut)
 	if err := w.Init(gen, 1); err != nil {
 		return l
 	}
@@ -507,8 +513,33 @@ func (l *Life) drainAll() {
 		}
 	}
 	w.EndBlock()
+	for _, sp := range l.SP {
+		withdrawAllProbe(w, sp.Acct)
+	}
 	w.Advance(3)
 	w.Case("life:drain-all:orders-left=%d,shards-left=%d", minInt(len(w.Cur.Orders), 3), minInt(len(w.Cur.Shards), 3))
+}
+
+// withdrawAllProbe: a provider that stores nothing withdraws its whole capacity; the whole capacity pledge has to
+// come back to it (C07: pledged funds return to the pledger in full, whatever sizes it added capacity in).
+func withdrawAllProbe(w *world.World, a *actors.Account) {
+	addr := a.Addr.String()
+	for try := 0; try < 2; try++ {
+		pl, ok := w.Cur.Pledges[addr]
+		if !ok || pl.UsedStorage != 0 || pl.TotalStorage <= 0 {
+			break
+		}
+		w.RemoveVstorage(a, uint64(pl.TotalStorage))
+		if w.C.InBlock {
+			w.EndBlock()
+		}
+	}
+	if pl, ok := w.Cur.Pledges[addr]; ok && pl.UsedStorage == 0 {
+		w.Case("c07:withdraw-all-probe:left=%v", pl.TotalStoragePledged.Amount.IsPositive())
+		if pl.TotalStoragePledged.Amount.IsPositive() {
+			w.Violate("C07", "capacity-pledge-not-withdrawable-in-full", fmt.Sprintf("provider %s stores nothing and asked for its whole capacity back, yet %s of its capacity pledge (for %d bytes) stays in escrow and cannot be withdrawn", shortAddr(addr), pl.TotalStoragePledged, pl.TotalStorage), nil)
+		}
+	}
 }
 
 func containsStr(l []string, x string) bool {
@@ -602,6 +633,64 @@ func scnRecreate(ctx *check.JobCtx) {
 	}
 	_, oid := w.Store(world.StoreReq{Owner: o.Id, Gateway: g, DataId: did, CommitId: did, Duration: d1, Replica: 2, Timeout: 400, Size: 1_000_000, Alias: alias})
 	w.EndBlock()
+	if mode == "two-unnamed" {
+		// a second unnamed model of the same owner and group while the first exists; then the first ends
+		w.CompleteAll(oid)
+		w.EndBlock()
+		did2 := w.NewDataId()
+		_, o2 := w.Store(world.StoreReq{Owner: o.Id, Gateway: g, DataId: did2, CommitId: did2, Duration: d1 + 500, Replica: 1, Timeout: 400, Size: 1_000_000, Alias: world.NoAlias})
+		if o2 != 0 {
+			w.CompleteAll(o2)
+		}
+		w.EndBlock()
+		w.Case("c13:recipe:two-unnamed:second-accepted=%v", o2 != 0)
+		w.Advance(int64(10 + r.Intn(300)))
+		w.Terminate(o.Id, nil, g.Acct, "", did, nil)
+		w.EndBlock()
+		// a third unnamed model after the first has gone
+		did3 := w.NewDataId()
+		_, o3 := w.Store(world.StoreReq{Owner: o.Id, Gateway: g, DataId: did3, CommitId: did3, Duration: 3600, Replica: 1, Timeout: 400, Size: 1_000_000, Alias: world.NoAlias})
+		if o3 != 0 {
+			w.CompleteAll(o3)
+		}
+		w.EndBlock()
+		last := l.lastScheduled()
+		if last > 0 && int64(last) < w.C.Height+20000 {
+			w.AdvanceTo(int64(last) + 2)
+		}
+		w.Sample("two unnamed models: %s", traceSummary(w))
+		w.Finish()
+		return
+	}
+	if mode == "update-cancel" || mode == "update-timeout" {
+		// an update (or force-push) on top of a committed version, reaching beyond the model's paid lifetime, ends
+		// before any of its shards is stored: the model must return to the committed version, lifetime included
+		w.CompleteAll(oid)
+		w.EndBlock()
+		w.Advance(int64(200 + r.Intn(1500)))
+		md := w.Cur.Metas[did]
+		to := int32(20 + r.Intn(30))
+		op := uint32(1 + r.Intn(2))
+		_, u := w.Store(world.StoreReq{Owner: o.Id, Gateway: g, DataId: did, CommitId: md.Commit + "|" + (did[:28] + "-updcxxxxxxxxxxxx")[:36], Duration: 3600 + uint64(r.Intn(2000)), Replica: int32(1 + r.Intn(2)), Timeout: to, Size: 1_000_000, Operation: op, Alias: world.AliasOf(md.Alias)})
+		w.EndBlock()
+		if u != 0 {
+			if mode == "update-cancel" {
+				w.Advance(int64(r.Intn(int(to) - 2)))
+				w.Cancel(g.Acct, u, g.Acct.Addr.String())
+			} else {
+				w.Advance(int64(to)*11 + 5)
+			}
+		}
+		w.EndBlock()
+		w.Case("c05:recipe:%s:accepted=%v,op=%d", mode, u != 0, op)
+		last := l.lastScheduled()
+		if last > 0 && int64(last) < w.C.Height+20000 {
+			w.AdvanceTo(int64(last) + 2)
+		}
+		w.Sample("update ended before storage (%s): %s", mode, traceSummary(w))
+		w.Finish()
+		return
+	}
 	switch mode {
 	case "cancel":
 		w.Advance(int64(r.Intn(200)))
